@@ -30,6 +30,17 @@ fn roundtrip(e: &Expr) -> Result<(), String> {
         Ok(t) => t,
         Err(p) => return Err(format!("to_string panicked: {p}")),
     };
+    // what the parser was given before has no bearing on the round trip: between printing and parsing back, the same
+    // thread parses a text that is rejected (chosen by the length of the rendering; every third case goes without)
+    const REJECTED: [&str; 12] = [
+        "\"C:\\temp\\qux\"", "\"abc", "\"x\\u{110000}\"", "\"ab\\u{zz}\"", "i1 +", "\"tail\\", "[\"a\", \"b\\q\"]", "d1.2.x y", "name == \"al\\ice\"",
+        "{k: \"v\\x41\"}", "\"\u{e9}t\u{e9}\\", "f(\"abc\\u{}\")",
+    ];
+    if text.len() % 3 != 2 {
+        let rejected = REJECTED[(text.len() / 3) % REJECTED.len()];
+        // (whether it is rejected, and how, is C06's and C07's business)
+        let _ = catch(|| if text.len() % 2 == 0 { Expr::parse(rejected).is_ok() } else { Rule::parse(rejected).is_ok() });
+    }
     match catch(|| Expr::parse(&text)) {
         Err(p) => Err(format!("rendering {text:?} makes Expr::parse panic: {p}")),
         Ok(Err(err)) => Err(format!("rendering {text:?} is not valid syntax: {err}")),
